@@ -32,6 +32,7 @@ def run(rep, prog, tier):
     rep.assume('PGPKey.hashdata / PGPUID.hashdata are non-empty; int_to_bytes(x, n) emits max(n, byte_length(x), 1) octets')
 
     sigdata.check_hashdata(rep, prog, 'C02.1')
+    families.check_algorithm_ids(rep, prog, 'C02.1.ids')
     sigdata.check_subject_hashdata(rep, prog, 'C02.1b')
     check_type_selection(rep, prog)
     check_sign_flow(rep, prog)
